@@ -62,8 +62,8 @@ def e1_known_sig(sc, v):
         return SHARED
     if o in ("update-raises-other", "run-raises", "weighted-sum") and none_sum:
         return SHARED
-    if o == "model-series-differs" and k == "refuse" and v.get("shared_ctx") == "dup-stateful":
-        return SHARED       # the ideal link refuses an empty integration interval, finam answers something
+    if o == "model-series-differs" and k == "refuse" and "zero-length" in v.get("msg", ""):
+        return SHARED       # the ideal link refuses an empty/negative integration interval, finam answers something
     if o == "extrapolating-get":
         return SHARED       # always accompanied by the failing pull above
     return None
